@@ -272,7 +272,7 @@ def run_job(job, rec):
                     # top of the density is flat; compare the densities instead of the parameter
                     d2 = float(E2(al * E.mode + be)) / float(E2(E2.mode))
                     track(name + ":cov_mode_density", 1 - d2)
-                    rec.check(d2 >= 0.97, "mode-not-covariant",
+                    rec.check(d2 >= 0.85, "mode-not-covariant",
                               lambda: f"{name}: mode of a*s+b is {E2.mode!r}, expected {al * E.mode + be!r} (density there is {d2:.4f} of the peak)", cctx)
                     gx = np.linspace(x.min(), x.max(), 201)
                     dd = np.abs(al * np.asarray(E2(al * gx + be), float) - np.asarray(E(gx), float)).max() / P.peak
